@@ -32,6 +32,8 @@ type CandidatePair struct {
 	state                    CandidatePairState
 	nominated                bool
 	nominateOnBindingSuccess bool
+	// deferredNominationValue is the renomination value (if any) of the nomination that set nominateOnBindingSuccess.
+	deferredNominationValue *uint32
 
 	// stats
 	currentRoundTripTime int64 // in ns
